@@ -142,7 +142,28 @@ def main():
         subprocess.run(["git", "-C", "/repo", "worktree", "remove", "--force", wt], stdout=subprocess.DEVNULL, stderr=subprocess.DEVNULL)
         shutil.rmtree(wt, ignore_errors=True)
         shutil.rmtree("/dev/shm/verif-sensitivity-sv-" + tag, ignore_errors=True)
-    json.dump(res, open(os.path.join(d, "validation.json"), "w"), indent=1)
+    vp = os.path.join(d, "validation.json")
+    if a.skip_validate and os.path.exists(vp):
+        # keep the earlier validation (demonstration, suite) and merge the check results: newer wins
+        try:
+            old = json.load(open(vp))
+            for k in ("demo_unchanged_rc", "demo_unchanged_tail", "demo_changed_fail_runs_of_3", "demo_changed_tail", "suite_stable_not_passed",
+                      "suite_failed", "build_rc", "note"):
+                if k in old and k not in res:
+                    res[k] = old[k]
+            checks = dict(old.get("checks") or {})
+            for c, r in (old.get("checks") or {}).items():
+                r.setdefault("superseded", False)
+            for c, r in (res.get("checks") or {}).items():
+                if c in checks and checks[c].get("rc") != r.get("rc"):
+                    r["earlier_rc_before_the_check_was_strengthened"] = checks[c].get("rc")
+                checks[c] = r
+            res["checks"] = checks
+            res["caught_by"] = [c for c, r in checks.items() if r["rc"] == 1]
+            res["valid"] = bool(old.get("valid"))
+        except Exception as e:
+            res["merge_error"] = str(e)
+    json.dump(res, open(vp, "w"), indent=1)
     print("SEED %s property=%s valid=%s caught_by=%s  (demo unchanged rc=%s, changed fails=%s/3, suite not passed=%d)" % (
         tag, pid, res.get("valid"), res.get("caught_by"), res.get("demo_unchanged_rc"), res.get("demo_changed_fail_runs_of_3"),
         len(res.get("suite_stable_not_passed") or [])))
